@@ -37,6 +37,7 @@ def required(tier):
         "filter.accept_all.glr": 500,
         "filter.accept_all.lr": 300,
         "filter.reject_production.glr": 500,
+        "filter.reject_shift.glr": 300,
         "filter.precedence.lr": 300,
         "filter.precedence.glr": 300,
         "completeness.reductions_checked": 5000,
@@ -81,9 +82,11 @@ class Filter:
         return r
 
 
-def grammar_text(rng, table, dynp, dynt, static, dynq=False):
+def grammar_text(rng, table, dynp, dynt, static, dynq=False, skip=None):
     alts = []
     for i, o in enumerate(table):
+        if i == skip:
+            continue
         meta = []
         if static:
             meta += [table[o][1], str(table[o][0])]
@@ -91,7 +94,7 @@ def grammar_text(rng, table, dynp, dynt, static, dynq=False):
             meta.append("dynamic")
         alts.append("E op%d E%s" % (i, (" {%s}" % ", ".join(meta)) if meta else ""))
     alts += ['"(" E ")"', '"n" Q']
-    terms = ['op%d: "%s"%s;' % (i, o, " {dynamic}" if dynt[o] else "") for i, o in enumerate(table)]
+    terms = ['op%d: "%s"%s;' % (i, o, " {dynamic}" if dynt[o] else "") for i, o in enumerate(table) if i != skip]
     # an optional suffix whose empty alternative may be marked dynamic: reductions of empty
     # dynamic productions must reach the filter too, with no sub-results
     q = 'Q: "?" | EMPTY%s;' % (" {dynamic}" if dynq else "")
@@ -188,6 +191,38 @@ def one_table(ctx):
                     continue
                 if a.kind == "forest":
                     completeness_glr(ctx, case, f2.log, a.forest)
+        # GLR: reject every SHIFT of one dynamic operator terminal == the grammar without that operator
+        dyn_terms = [o for o in ops if dynt[o]]
+        if dyn_terms and label == "ambiguous" and len(ops) >= 2:
+            vi = ops.index(rng.choice(dyn_terms))
+            victim_t = "op%d" % vi
+            f6 = Filter(lambda context, fs, ts, action, production, sub: not (action is SHIFT and ts.symbol.name == victim_t))
+            ps = pgx.glr(pgx.grammar(text), dynamic_filter=f6)
+            pref = pgx.glr(pgx.grammar(grammar_text(rng, table, dynp, dynt, static=False, dynq=dynq, skip=vi)))
+            for x in exprs:
+                case = {"grammar": text, "filter": "reject_shift:" + victim_t, "parser": "GLR", "expr": x}
+                del f6.log[:]
+                a = glrobs.parse_glr(ps, x)
+                b = glrobs.parse_glr(pref, x)
+                ctx.count("filter.reject_shift.glr")
+                if not discipline(ctx, case, f6.log, ps.grammar):
+                    continue
+                if a.kind == "exc":
+                    ctx.violation("filter-parse-raises:" + type(a.exc).__name__, case, str(a.exc)[:200])
+                    continue
+                if a.kind != b.kind:
+                    ctx.violation("rejected-shift-taken-or-more-dropped", case, "rejecting every shift of %s gives %s, the grammar without that operator gives %s" % (victim_t, a.kind, b.kind))
+                    continue
+                if a.kind == "forest" and a.len <= 200 and set(t.to_str() for t in a.forest) != set(t.to_str() for t in b.forest):
+                    ctx.violation("rejected-shift-taken-or-more-dropped", case, "forests differ from the grammar without %s" % victim_t)
+                    continue
+                if a.kind == "syntax" and a.err.location.start_position != b.err.location.start_position:
+                    ctx.violation(
+                        "rejected-shift-half-taken",
+                        case,
+                        "rejecting every shift of %s: error reported at %s, the grammar without that operator fails at %s (the parser went on behind the rejected shift)"
+                        % (victim_t, a.err.location.start_position, b.err.location.start_position),
+                    )
         # LR accept-all on the conflict-free (static priorities) grammar
         if label == "static":
             try:
